@@ -254,7 +254,7 @@ pub const STORAGE_ALL: &[&str] = &["S1-truncate", "S2-bitflip", "S2-overwrite", 
 pub const HOSTILE: &[&str] = &[
     "2147483647", "-2147483648", "2147483648", "-2147483647", "1e39", "-1e39", "NaN", "nan", "inf", "-inf", "infinity", "131072", "131073", "-131072", "-131073", "9001", "9000", "-1", "0", "",
     "1e-320", "4294967296", "B", "P", "L", "C", "B3", "B0", "B-1", "x", "-", "+", "1:2:3:x", "B|1:1|x", "0x10", "1_000", " 5 ", "5 ", "٣", "1e", "1e+", ".", "-.", "1.", ".5", "1,2", "|", "||", ":", "::",
-    "340282350000000000000000000000000000000", "1e308", "1e309", "4e-46", "16777217", "0.30000000000000004", "-0", "-0.0",
+    "1\u{0}2", "\u{0}5", "340282350000000000000000000000000000000", "1e308", "1e309", "4e-46", "16777217", "0.30000000000000004", "-0", "-0.0",
 ];
 
 fn sep_positions(l: &str) -> Vec<usize> {
@@ -326,7 +326,7 @@ pub fn corrupt_record_partial(rng: &mut Rng, l: &str) -> Option<String> {
         Ok(v) => (if v >= 200 { v - 1 - rng.range(0, 60) } else { v + 1 + rng.range(0, 50) }).to_string(),
         Err(_) => format!("{}", old.parse::<f64>().unwrap_or(1.0) + 0.5),
     };
-    let bad = *rng.pick(&["256", "x", "", "NaN", "2147483648", "-1e39", "1e", "9001", "131073", "-", "1:x"]);
+    let bad = *rng.pick(&["256", "x", "", "NaN", "2147483648", "-1e39", "1e", "9001", "131073", "-", "1:x", "1\u{0}2", "\u{0}", "7\u{0}"]);
     let mut out = String::new();
     for (i, (a, z)) in bounds.iter().enumerate() {
         if i > 0 {
